@@ -134,6 +134,15 @@ func newFlagSet(name string) *flag.FlagSet {
 }
 
 func addFlag(fs *flag.FlagSet, name string, value any, description string) error {
+	// The flag package panics when given such a name.
+	if strings.HasPrefix(name, "-") || strings.Contains(name, "=") {
+		return errs.BadValue{What: "flag name",
+			Valid: "string not starting with - or containing =", Actual: vals.ReprPlain(name)}
+	}
+	if fs.Lookup(name) != nil {
+		return errs.BadValue{What: "flag name",
+			Valid: "name not already defined", Actual: vals.ReprPlain(name)}
+	}
 	switch value := value.(type) {
 	case bool:
 		fs.Bool(name, value, description)
